@@ -57,6 +57,10 @@ pub struct PipeStep {
     pub algs: Option<Vec<String>>,
     /// read(2) faults while this step is recorded: (short, eintr) per mille; absorbed by the library
     pub read_faults: Option<(u64, u64)>,
+    /// a second functionary (key index) carries the step out as well, on his own copy of what was handed
+    /// over (with these faults of the transport on the way to HIM); the step then needs both (threshold 2)
+    #[serde(default)]
+    pub second: Option<(usize, Vec<Transit>)>,
 }
 
 #[derive(Clone, Debug, Serialize, Deserialize, PartialEq)]
@@ -176,6 +180,8 @@ pub struct StepOutcome {
 
 pub struct PipeOutcome {
     pub steps: Vec<StepOutcome>,
+    /// the second functionary's outcome per step (None: the step has one functionary)
+    pub seconds: Vec<Option<StepOutcome>>,
     pub fired: Vec<String>,
     pub work_before: refmodel::Artifacts,
     pub verdict: Option<exec::Verdict>,
@@ -188,10 +194,83 @@ fn layout_spec(t: &PipelineTrace) -> LayoutSpec {
     LayoutSpec {
         expires: refmodel::render_rfc3339(t.now + 86_400 * 30, None, ""),
         readme: String::new(),
-        key_table: t.steps.iter().map(|s| s.key).collect::<BTreeSet<_>>().into_iter().collect(),
-        steps: t.steps.iter().map(|s| StepSpec { name: s.name.clone(), threshold: 1, pubkeys: vec![s.key], exp_mat: s.exp_mat.clone(), exp_prod: s.exp_prod.clone(), cmd: vec![] }).collect(),
+        key_table: t.steps.iter().flat_map(|s| std::iter::once(s.key).chain(s.second.iter().map(|x| x.0))).collect::<BTreeSet<_>>().into_iter().collect(),
+        steps: t
+            .steps
+            .iter()
+            .map(|s| {
+                let pubkeys: Vec<usize> = std::iter::once(s.key).chain(s.second.iter().map(|x| x.0)).collect();
+                StepSpec { name: s.name.clone(), threshold: pubkeys.len() as u32, pubkeys, exp_mat: s.exp_mat.clone(), exp_prod: s.exp_prod.clone(), cmd: vec![] }
+            })
+            .collect(),
         inspect: t.inspection.iter().cloned().collect(),
     }
+}
+
+/// One functionary carries out one step in his own workspace: snapshot, in_toto_run, snapshot, file the link.
+#[allow(clippy::too_many_arguments)]
+fn carry_out(t: &PipelineTrace, st: &PipeStep, key_idx: usize, ws: &Path, dirname: &str, wsroot: &Path, scratch: &Scratch, hs: u64, fired: &mut Vec<String>) -> (StepOutcome, bool) {
+    let dev = std::fs::metadata(&scratch.root).map(|m| m.dev()).unwrap_or(0);
+    let algs: Vec<String> = st.algs.clone().unwrap_or_else(|| vec!["sha256".to_string()]);
+    let (me, ma) = snapshot_of(ws, &algs);
+    std::fs::write(scratch.side().join("actors").join(format!("{}.json", st.actor.id.replace('/', "_"))), serde_json::to_vec(&st.actor).unwrap()).expect("actor script");
+    // what the functionary passes to the library
+    let wsd = ws.to_string_lossy().to_string();
+    let (cwd, paths, lstrip): (std::path::PathBuf, Vec<String>, Option<Vec<String>>) = match st.style {
+        1 => (scratch.work(), vec![wsd.clone()], Some(vec![format!("{wsd}/")])),
+        2 => (wsroot.to_path_buf(), vec![dirname.to_string()], Some(vec![format!("{dirname}/")])),
+        _ => (ws.to_path_buf(), vec![".".to_string()], None),
+    };
+    std::env::set_current_dir(&cwd).expect("chdir");
+    let (name, cmd, algs_opt, rf) = (st.name.clone(), actor_cmd(&st.actor), st.algs.clone(), st.read_faults);
+    let kspec = t.keys[key_idx];
+    let r = exec::silenced(|| {
+        exec::in_fresh_thread(hs, move || -> Result<(in_toto::models::Metablock, (usize, usize, usize, usize)), String> {
+            // the functionary's own key object, made in this thread
+            let private = keys::make_private(kspec);
+            let p: Vec<&str> = paths.iter().map(|s| s.as_str()).collect();
+            let c: Vec<&str> = cmd.iter().map(|s| s.as_str()).collect();
+            let ls: Option<Vec<&str>> = lstrip.as_ref().map(|v| v.iter().map(|s| s.as_str()).collect());
+            let al: Option<Vec<&str>> = algs_opt.as_ref().map(|v| v.iter().map(|s| s.as_str()).collect());
+            if let Some((s, e)) = rf {
+                crate::seams::read_arm(dev, hs, s, e, 0);
+            }
+            let out = in_toto::runlib::in_toto_run(&name, Some(&wsd), &p, &p, &c, Some(&private), al.as_deref(), ls.as_deref());
+            let stats = if rf.is_some() { crate::seams::read_disarm() } else { (0, 0, 0, 0) };
+            out.map(|mb| (mb, stats)).map_err(|e| format!("{}: {}", exec::err_class(&e), e))
+        })
+    });
+    let (pe, pa) = snapshot_of(ws, &algs);
+    let mut so = StepOutcome { mats_expect: me, prods_expect: pe, mats: ma, prods: pa, recorded: None, panic: None };
+    let mut broken = false;
+    match r {
+        Err(p) => {
+            crate::seams::read_disarm();
+            so.panic = Some(p);
+            broken = true;
+        }
+        Ok(Err(e)) => {
+            so.recorded = Some(Err(e));
+            broken = true;
+        }
+        Ok(Ok((mb, stats))) => {
+            if stats.1 > 0 {
+                fired.push("R-SHORT".into());
+            }
+            if stats.2 > 0 {
+                fired.push("R-EINTR".into());
+            }
+            // the functionary files the link under the conventional name
+            let keyid = serde_json::to_value(&mb.signatures).ok().and_then(|v| v[0]["keyid"].as_str().map(|s| s.to_string())).unwrap_or_default();
+            let prefix: String = keyid.chars().take(8).collect();
+            let bytes = serde_json::to_vec(&mb).unwrap_or_default();
+            let _ = std::fs::write(scratch.links().join(format!("{}.{}.link", st.name, prefix)), bytes);
+            if let in_toto::models::MetadataWrapper::Link(l) = &mb.metadata {
+                so.recorded = Some(Ok((to_snapshot(&l.materials), to_snapshot(&l.products), serde_json::to_value(&l.byproducts).unwrap_or(Value::Null), json!(l.name))));
+            }
+        }
+    }
+    (so, broken)
 }
 
 pub fn run_pipeline(t: &PipelineTrace, scratch: &Scratch) -> PipeOutcome {
@@ -202,90 +281,49 @@ pub fn run_pipeline(t: &PipelineTrace, scratch: &Scratch) -> PipeOutcome {
     std::env::set_var("TZ", "UTC0");
     let mut fired: Vec<String> = vec![];
     let mut outs: Vec<StepOutcome> = vec![];
+    let mut seconds: Vec<Option<StepOutcome>> = vec![];
     let mut prev: Option<std::path::PathBuf> = None;
-    let dev = std::fs::metadata(&scratch.root).map(|m| m.dev()).unwrap_or(0);
     let mut broken = false;
     for (i, st) in t.steps.iter().enumerate() {
         let dirname = format!("w{i}");
         let ws = wsroot.join(&dirname);
-        match &prev {
-            None => {
-                std::fs::create_dir_all(&ws).expect("ws0");
-                for (p, c) in &t.initial {
-                    write_file(&ws, p, c.as_bytes());
-                }
+        // a second functionary of the same step works on his own copy of what was handed over
+        let dirname2 = format!("w{i}b");
+        let ws2 = wsroot.join(&dirname2);
+        for (w, second) in [(&ws, false), (&ws2, true)] {
+            if second && st.second.is_none() {
+                continue;
             }
-            Some(p) => copy_tree(p, &ws),
+            match &prev {
+                None => {
+                    std::fs::create_dir_all(w).expect("ws0");
+                    for (p, c) in &t.initial {
+                        write_file(w, p, c.as_bytes());
+                    }
+                }
+                Some(p) => copy_tree(p, w),
+            }
         }
         fired.extend(apply_transit(&ws, &st.transit));
-        let algs: Vec<String> = st.algs.clone().unwrap_or_else(|| vec!["sha256".to_string()]);
-        let (me, ma) = snapshot_of(&ws, &algs);
-        std::fs::write(scratch.side().join("actors").join(format!("{}.json", st.actor.id.replace('/', "_"))), serde_json::to_vec(&st.actor).unwrap()).expect("actor script");
-        // what the functionary passes to the library
-        let wsd = ws.to_string_lossy().to_string();
-        let (cwd, paths, lstrip): (std::path::PathBuf, Vec<String>, Option<Vec<String>>) = match st.style {
-            1 => (scratch.work(), vec![wsd.clone()], Some(vec![format!("{wsd}/")])),
-            2 => (wsroot.clone(), vec![dirname.clone()], Some(vec![format!("{dirname}/")])),
-            _ => (ws.clone(), vec![".".to_string()], None),
-        };
-        std::env::set_current_dir(&cwd).expect("chdir");
-        let key = keys::key(t.keys[st.key]);
-        let (name, cmd, algs_opt, rf, hs) = (st.name.clone(), actor_cmd(&st.actor), st.algs.clone(), st.read_faults, t.hash_seed.wrapping_add(i as u64));
-        let kspec = t.keys[st.key];
-        let _ = &key;
-        let r = exec::silenced(|| {
-            exec::in_fresh_thread(hs, move || -> Result<(in_toto::models::Metablock, (usize, usize, usize, usize)), String> {
-                // the functionary's own key object, made in this thread
-                let private = keys::make_private(kspec);
-                let p: Vec<&str> = paths.iter().map(|s| s.as_str()).collect();
-                let c: Vec<&str> = cmd.iter().map(|s| s.as_str()).collect();
-                let ls: Option<Vec<&str>> = lstrip.as_ref().map(|v| v.iter().map(|s| s.as_str()).collect());
-                let al: Option<Vec<&str>> = algs_opt.as_ref().map(|v| v.iter().map(|s| s.as_str()).collect());
-                if let Some((s, e)) = rf {
-                    crate::seams::read_arm(dev, hs, s, e, 0);
-                }
-                let out = in_toto::runlib::in_toto_run(&name, Some(&wsd), &p, &p, &c, Some(&private), al.as_deref(), ls.as_deref());
-                let stats = if rf.is_some() { crate::seams::read_disarm() } else { (0, 0, 0, 0) };
-                out.map(|mb| (mb, stats)).map_err(|e| format!("{}: {}", exec::err_class(&e), e))
-            })
-        });
-        let (pe, pa) = snapshot_of(&ws, &algs);
-        let mut so = StepOutcome { mats_expect: me, prods_expect: pe, mats: ma, prods: pa, recorded: None, panic: None };
-        match r {
-            Err(p) => {
-                crate::seams::read_disarm();
-                so.panic = Some(p);
-                broken = true;
-            }
-            Ok(Err(e)) => {
-                so.recorded = Some(Err(e));
-                broken = true;
-            }
-            Ok(Ok((mb, stats))) => {
-                if stats.1 > 0 {
-                    fired.push("R-SHORT".into());
-                }
-                if stats.2 > 0 {
-                    fired.push("R-EINTR".into());
-                }
-                // the functionary files the link under the conventional name
-                let keyid = serde_json::to_value(&mb.signatures).ok().and_then(|v| v[0]["keyid"].as_str().map(|s| s.to_string())).unwrap_or_default();
-                let prefix: String = keyid.chars().take(8).collect();
-                let bytes = serde_json::to_vec(&mb).unwrap_or_default();
-                let _ = std::fs::write(scratch.links().join(format!("{}.{}.link", st.name, prefix)), bytes);
-                if let in_toto::models::MetadataWrapper::Link(l) = &mb.metadata {
-                    so.recorded = Some(Ok((to_snapshot(&l.materials), to_snapshot(&l.products), serde_json::to_value(&l.byproducts).unwrap_or(Value::Null), json!(l.name))));
-                }
-            }
-        }
+        let hs = t.hash_seed.wrapping_add(i as u64);
+        let (so, b) = carry_out(t, st, st.key, &ws, &dirname, &wsroot, scratch, hs, &mut fired);
+        broken |= b;
         outs.push(so);
+        let mut sec = None;
+        if let (Some((k2, tr2)), false) = (&st.second, broken) {
+            fired.extend(apply_transit(&ws2, tr2));
+            let (so2, b2) = carry_out(t, st, *k2, &ws2, &dirname2, &wsroot, scratch, hs ^ 0xb, &mut fired);
+            broken |= b2;
+            sec = Some(so2);
+        }
+        seconds.push(sec);
         if broken {
             break;
         }
         prev = Some(ws);
     }
     std::env::set_current_dir("/").ok();
-    let mut o = PipeOutcome { steps: outs, fired, work_before: refmodel::Artifacts::new(), verdict: None, no_layout: None, events: vec![], work_after: vec![] };
+    let mut o = PipeOutcome { steps: outs, seconds, fired, work_before: refmodel::Artifacts::new(), verdict: None, no_layout: None, events: vec![], work_after: vec![] };
     if broken {
         return o;
     }
@@ -330,7 +368,8 @@ pub fn judge_pipeline(t: &PipelineTrace, o: &PipeOutcome) -> (Vec<Finding>, Stri
     let mut f = vec![];
     let fnd = |p: &str, c: &str, d: String| Finding { prop: p.into(), clause: c.into(), detail: d };
     // recording: every step's link must be what the harness saw
-    for (i, so) in o.steps.iter().enumerate() {
+    let all_recordings: Vec<(usize, &StepOutcome)> = o.steps.iter().enumerate().flat_map(|(i, so)| std::iter::once((i, so)).chain(o.seconds.get(i).and_then(|x| x.as_ref()).map(|s2| (i, s2)))).collect();
+    for (i, so) in all_recordings {
         let st = &t.steps[i];
         if let Some(p) = &so.panic {
             f.push(fnd("C14", "panic-in-recorder", p.clone()));
@@ -386,6 +425,26 @@ pub fn judge_pipeline(t: &PipelineTrace, o: &PipeOutcome) -> (Vec<Finding>, Stri
     let mut links: BTreeMap<String, LinkArts> = BTreeMap::new();
     for (i, so) in o.steps.iter().enumerate() {
         links.insert(t.steps[i].name.clone(), LinkArts { materials: so.mats.clone(), products: so.prods.clone() });
+    }
+    // a step carried out by two functionaries: their links must agree (what each of them saw and made)
+    let mut dissent: Option<String> = None;
+    for (i, so) in o.steps.iter().enumerate() {
+        if let Some(Some(s2)) = o.seconds.get(i) {
+            if dissent.is_none() && (s2.mats != so.mats || s2.prods != so.prods) {
+                dissent = Some(format!("step {}: the two functionaries' workspaces differed ({})", t.steps[i].name, if s2.mats != so.mats { "materials" } else { "products" }));
+            }
+        }
+    }
+    if let Some(why) = &dissent {
+        if v.ok {
+            f.push(fnd("C07", "dissenting-link-accepted", format!("pipeline: {why}, both links are validly signed and authorized, the step needs both, yet verification returned Ok")));
+        }
+        if let Some(insp) = &t.inspection {
+            if o.events.iter().any(|l| l.strip_prefix("start ") == Some(insp.actor.id.as_str())) {
+                f.push(fnd("C08", "inspection-ran-before-steps-verified", format!("pipeline: inspection {} was started although {why}", insp.actor.id)));
+            }
+        }
+        return (f, format!("reject: {why}"));
     }
     let mut in_scope = true;
     let mut step_reject: Option<String> = None;
@@ -532,6 +591,11 @@ pub fn exec_and_fold(t: &PipelineTrace, scratch: &Scratch, rec: &mut RunRecord, 
     d.update(&rec.log_digest.to_le_bytes());
     let mut sh = Digest::new();
     sh.str(&model.split(':').next().unwrap_or("").to_string());
+    for so in o.seconds.iter().flatten() {
+        d.str(&format!("2nd{:?}{:?}", so.mats, so.prods));
+        d.str(&exec::mask_scratch(&format!("{:?}", so.recorded)));
+        sh.str("2nd");
+    }
     for so in &o.steps {
         d.str(&format!("{:?}{:?}", so.mats, so.prods));
         d.str(&exec::mask_scratch(&format!("{:?}", so.recorded)));
@@ -573,6 +637,11 @@ pub fn exec_and_fold(t: &PipelineTrace, scratch: &Scratch, rec: &mut RunRecord, 
         rec.fired.push(l.clone());
     }
     rec.probe("pipeline: steps really executed with in_toto_run");
+    if model.contains("the two functionaries' workspaces differed") {
+        rec.probe("pipeline: two functionaries of one step disagree");
+    } else if o.seconds.iter().any(|x| x.is_some()) {
+        rec.probe("pipeline: two functionaries of one step agree");
+    }
     if model.starts_with("reject") && !o.fired.is_empty() {
         rec.probe("pipeline: in-transit fault caught by the rules (model rejects)");
     }
@@ -644,10 +713,10 @@ fn random_rule(r: &mut Rng, names: &[String]) -> Rule {
     }
 }
 
-pub fn gen_trace(seed: u64, _tier: Tier, force_insp: bool) -> PipelineTrace {
+pub fn gen_trace(seed: u64, _tier: Tier, force_insp: bool, force_second: bool) -> PipelineTrace {
     let mut r = Rng::stream(seed, "pipeline");
     let n = 1 + r.weighted(&[25, 45, 30]);
-    let keys: Vec<KeySpec> = (0..n + 1).map(|i| KeySpec { kind: if r.chance(1, 8) { KeyKind::EdPk8 } else { KeyKind::Ed }, seed: (seed % 89) * 16 + i as u64 }).collect();
+    let keys: Vec<KeySpec> = (0..2 * n + 1).map(|i| KeySpec { kind: if r.chance(1, 8) { KeyKind::EdPk8 } else { KeyKind::Ed }, seed: (seed % 89) * 16 + i as u64 }).collect();
     let names: Vec<String> = (0..n).map(|i| ["fetch", "build", "test", "pack"][i % 4].to_string()).collect();
     let mut labels = vec!["PIPELINE".to_string()];
     // the source tree
@@ -772,6 +841,7 @@ pub fn gen_trace(seed: u64, _tier: Tier, force_insp: bool) -> PipelineTrace {
             style: r.weighted(&[50, 25, 25]) as u8,
             algs: if r.chance(1, 6) { Some(vec!["sha256".into(), "sha512".into()]) } else { None },
             read_faults: if r.chance(1, 6) { Some((300, 200)) } else { None },
+            second: None,
         });
     }
     // a step that records two digests per artifact next to one that records one would make every MATCH
@@ -801,6 +871,26 @@ pub fn gen_trace(seed: u64, _tier: Tier, force_insp: bool) -> PipelineTrace {
             steps[at].transit.push(tf);
         }
     }
+    // a second functionary for one step in a quarter of the worlds; the transport to HIM fails now and then
+    if force_second || r.chance(1, 4) {
+        let i = r.idx(n);
+        let mut tr = vec![];
+        if r.chance(1, 2) {
+            let pool: Vec<String> = initial.iter().map(|x| x.0.clone()).chain(NEW_FILES.iter().map(|s| s.to_string())).collect();
+            let victim = r.pick(&pool).clone();
+            tr.push(match r.below(3) {
+                0 => Transit::Tamper { path: victim },
+                1 => Transit::Inject { path: "evil2".into(), content: "injected".into() },
+                _ => Transit::Remove { path: victim },
+            });
+        }
+        // (what reached the first functionary reaches the second one too, unless the fault is his alone)
+        if r.chance(1, 2) {
+            tr.extend(steps[i].transit.clone());
+        }
+        steps[i].second = Some((n + 1 + i, tr));
+        labels.push("TWO-FUNCTIONARIES".into());
+    }
     // an inspection over the delivered product in some of the worlds
     let inspection = if force_insp || r.chance(2, 5) {
         let last = names[n - 1].clone();
@@ -829,7 +919,7 @@ pub fn gen_trace(seed: u64, _tier: Tier, force_insp: bool) -> PipelineTrace {
 }
 
 pub fn run_check(prop: &str, tier: Tier, seed: u64, index: u64, scratch: &Scratch, rec: &mut RunRecord) {
-    let t = gen_trace(seed, tier, prop == "C08");
+    let t = gen_trace(seed, tier, prop == "C08", prop == "C07");
     exec_and_fold(&t, scratch, rec, seed, index, prop);
 }
 
@@ -881,6 +971,11 @@ pub fn minimise(prop: &str, clause: &str, t: &PipelineTrace, scratch: &Scratch) 
             for i in 0..cur.steps[s].exp_prod.len() {
                 let mut c = cur.clone();
                 c.steps[s].exp_prod.remove(i);
+                cands.push(c);
+            }
+            if cur.steps[s].second.is_some() {
+                let mut c = cur.clone();
+                c.steps[s].second = None;
                 cands.push(c);
             }
             if cur.steps[s].style != 0 {
